@@ -151,6 +151,17 @@ CLAIMED = {
             'Trusted: sx engine, exact-real clock. Bounds: <= 2 (thorough 3) pending datagrams in the step lemma, 2..3 (4) carrying '
             'datagrams, <= 2 (3) fragments. BEST_EFFORT callbacks are excluded by the statement.',
             'DESIGN.md §6 C07'),
+    'C04': ('A genuine datagram (really produced and sealed by the peer object) whose sequence number the receiver has already '
+            'seen - at any offset 0..32767 behind the newest, from an arbitrary symbolic window state, with the history beyond the '
+            'window represented by a ghost Boolean - is proven to be rejected, counted as dropped once, and to leave the whole semantic '
+            'state (windows, liveness clock, pending tables, queues, key, status) unchanged; a fresh datagram carrying an already '
+            'received message seq (APP or APP_FRAGMENT, any offset) is proven not to deliver or store it again, except in the open '
+            'known finding F4b (more than 256 newer messages in between), whose complement is proven; a bounded two-endpoint scenario '
+            'delivers three recorded datagrams (any retry modes, piggy-backed retransmissions) in every order with repeats. '
+            'Violations are replayed through the public API (deliver, d newer datagrams, deliver again).',
+            'Trusted: sx engine, ideal AEAD, C08 (window exactness inside the window). Retransmission identity (same seq/type/payload) '
+            'is C05 L5.4 / C06 L6.4. Bounds: one pending entry in the step lemmas; scenario of 3 datagrams and <= 4 (thorough 6) deliveries.',
+            'DESIGN.md §6 C04'),
 }
 
 NOT_YET = 'check not built yet in this round (planned: see DESIGN.md §6); not claimed'
